@@ -751,7 +751,11 @@ impl SysComp {
                 && toks.len() == 4
                 && toks[2].parse::<u64>().ok() == Some(c.conn_id)
                 && parse_hex(toks[3]).is_some_and(|d| get_packet_type(&d) == Some(SRTLA_TYPE_REG3));
-            reset[i] = torn || attempt || reg3_here;
+            let regerr_here = kind == Kind::Uplink
+                && toks.len() == 4
+                && toks[2].parse::<u64>().ok() == Some(c.conn_id)
+                && parse_hex(toks[3]).is_some_and(|d| get_packet_type(&d) == Some(SRTLA_TYPE_REG_ERR));
+            reset[i] = torn || attempt || reg3_here || regerr_here;
             if torn {
                 mon.count("teardown");
                 let by_timeout = kind == Kind::Hk && pre[i].timed_out;
@@ -864,8 +868,12 @@ impl SysComp {
                 }
                 if !pre_has_connected {
                     mon.count("pre-registration-forward");
-                    if holders.is_empty() && failed_here.is_empty() {
-                        g.dropped.insert(tag);
+                    if holders.is_empty() {
+                        if failed_here.is_empty() {
+                            g.dropped.insert(tag);
+                        } else {
+                            g.lost_ok.insert(tag);
+                        }
                     }
                     return;
                 }
